@@ -1,6 +1,6 @@
 (* Props/C11.v — SaveCache / LoadCache round trip restores the cache faithfully (block model) *)
 From Coq Require Import ZArith List Bool.
-From Verif Require Import Base.Word64 Model.Persist Proof.PersistP Proof.PersistMru.
+From Verif Require Import Base.Word64 Model.Persist Proof.PersistP Proof.PersistMru Proof.PersistDemote.
 Import ListNotations.
 Open Scope Z_scope.
 
@@ -67,6 +67,36 @@ Example c11_smaller_example :
                      (save 7 100 10 10 2 6 (map e [1; 2]) (map e [3; 4; 5; 6]) (map e [7; 8; 9; 10])) in
   snd res = rOK /\ map pe_key (r_win (fst res)) = [1] /\ map pe_key (r_prot (fst res)) = [3; 4] /\
   map pe_key (r_prob (fst res)) = [7] /\ r_wsz (fst res) = 4.
+Proof. vm_compute. repeat split. Qed.
+
+(* a cache whose last operations were reads: the protected region may stand above its capacity (the demotion is left to the
+   next write), so the premise "sumw prot <= pcap" of c11_same_size can fail for the cache as it is - defect F19: the overflow was
+   lost on reload.  Persist now performs the pending demotion first ([demote]: tail of protected to the front of probation
+   while the region is over), and with it every entry comes back whatever the reads had left pending: the window as saved,
+   protected followed by probation in the saved order, the same total *)
+Theorem c11_same_size_after_reads : forall version st tot cap wcap pcap win prot prob wc' pc' mm' st' wall,
+  1 <= wcap -> 0 <= pcap -> w64 (wcap + pcap) = w64 (wc' + pc') ->
+  (forall e, In e (win ++ prot ++ prob) -> 0 <= pe_pw e /\ (pe_expire e = 0 \/ wall - st <= pe_expire e)) ->
+  sumw win <= wcap -> sumw win + sumw prot + sumw prob <= cap ->
+  let '(prot', prob') := demote pcap prot prob in
+  let res := recover version (fresh cap wc' pc' mm' st' wall) (save version st tot cap wcap pcap win prot' prob') in
+  snd res = rOK /\ r_win (fst res) = win /\ r_prot (fst res) ++ r_prob (fst res) = prot ++ prob /\
+  r_wsz (fst res) = sumw win + sumw prot + sumw prob.
+Proof. exact reload_same_after_demotion. Qed.
+Print Assumptions c11_same_size_after_reads.
+
+(* F19 in the model: protected holds 4 entries against a capacity of 2.  Saved as it is, two entries are lost; saved after
+   the demotion, all six come back *)
+Example c11_overflow_lost_without_demotion :
+  let e k := mkPE k (k * 10) 1 1 0 3 in
+  let res := recover 7 (fresh 6 1 2 5 500 2000) (save 7 100 6 6 1 2 [e 1] (map e [2; 3; 4; 5]) [e 6]) in
+  snd res = rOK /\ map pe_key (r_prot (fst res)) = [2; 3] /\ map pe_key (r_prob (fst res)) = [6] /\ r_wsz (fst res) = 4.
+Proof. vm_compute. repeat split. Qed.
+Example c11_overflow_kept_with_demotion :
+  let e k := mkPE k (k * 10) 1 1 0 3 in
+  let '(prot', prob') := demote 2 (map e [2; 3; 4; 5]) [e 6] in
+  let res := recover 7 (fresh 6 1 2 5 500 2000) (save 7 100 6 6 1 2 [e 1] prot' prob') in
+  snd res = rOK /\ map pe_key (r_prot (fst res)) = [2; 3] /\ map pe_key (r_prob (fst res)) = [4; 5; 6] /\ r_wsz (fst res) = 6.
 Proof. vm_compute. repeat split. Qed.
 
 (* the wall-clock deadline is preserved because the saved clock origin is adopted *)
